@@ -22,35 +22,58 @@ CHECKS["C30"] = dict(
     technique="TLA+ model of cheque acceptance/crediting checked by TLC; TLC-generated cheque sequences (really signed, EIP-712) "
               "sent to the real traffic service / protocol handler; recorded trace judged by the TLA+ trace spec",
     level_text="TLC exhausts the ChequeStore model (3 keys, 2 registered + 1 unregistered peer, payouts {1,2,3,5}, all 216 cheques per "
-               "step) and generates one shortest cheque history per (model state, cheque) edge plus random sequences; each is run on "
+               "step; and registration as an action: every handshake of 3 overlays presenting any of 3 chain addresses from an empty "
+               "address book) and generates one shortest cheque history per (model state, cheque) edge plus random sequences, "
+               "and one shortest history per (registration, claims, operation) edge of the registration family; each is run on "
                "real cheque.NewChequeStore + traffic.New (Service.ReceiveCheque and the trafficprotocol handler) and every "
                "recorded outcome is judged by ChequeStoreTrace.tla",
     level_note="trusted: TLC, secp256k1/EIP-712 as a signature scheme (a cheque signed by key k *is* Sig(k,..)), the pass-through "
                "recorder around the real ChequeStore; the converse direction (well-formed cheques are accepted) is a "
                "conformance note, not a verdict: the statement says 'accepted only if'",
-    design=[dict(spec="MCChequeStore.tla", cfg="MCChequeStore.cfg", workers=4, timeout=300)],
+    design=[dict(spec="MCChequeStore.tla", cfg="MCChequeStore.cfg", workers=4, timeout=300),
+            # registration as an action from an empty address book (any peer may present any chain address)
+            dict(spec="MCChequeStore.tla", cfg="MCChequeStoreDyn.cfg", workers=4, timeout=600)],
     gen=dict(
         quick=[dict(mode="edges", spec="ChequeStoreGen.tla", cfg="ChequeStoreGenEdges.cfg", depth=5, max=900, name="edges",
                     env=dict(VERIF_ALPHABET="classes")),
                dict(mode="sim", spec="ChequeStoreGen.tla", cfg="ChequeStoreGenSim.cfg", depth=5, num=150, max=600, name="seq5",
-                    env=dict(VERIF_ALPHABET="classes"))],
+                    env=dict(VERIF_ALPHABET="classes")),
+               # registration family: nobody registered at the start; up to 2 handshakes (3 overlays x chain addresses 1,2:
+               # two overlays presenting the same address, a registered peer presenting another one), then cheques of
+               # those addresses from every peer.  Not sampled: every (state, claims, operation) edge is run
+               dict(mode="edges", spec="ChequeStoreGen.tla", cfg="ChequeStoreGenEdges.cfg", depth=4, name="reg-edges",
+                    env=dict(VERIF_HS=2, VERIF_CUMS=1, VERIF_HSKEYS=2))],
         thorough=[dict(mode="edges", spec="ChequeStoreGen.tla", cfg="ChequeStoreGenEdges.cfg", depth=5, name="edges-full",
                        env=dict(VERIF_ALPHABET="full"), timeout=900),
                   dict(mode="sim", spec="ChequeStoreGen.tla", cfg="ChequeStoreGenSim.cfg", depth=5, num=2500, max=6000, name="seq5",
                        env=dict(VERIF_ALPHABET="classes")),
                   dict(mode="sim", spec="ChequeStoreGen.tla", cfg="ChequeStoreGenSim.cfg", depth=9, num=600, max=2500, name="seq9",
-                       env=dict(VERIF_ALPHABET="classes"), salt=5)]),
+                       env=dict(VERIF_ALPHABET="classes"), salt=5),
+                  dict(mode="edges", spec="ChequeStoreGen.tla", cfg="ChequeStoreGenEdges.cfg", depth=4, name="reg-edges",
+                       env=dict(VERIF_HS=2, VERIF_CUMS=1, VERIF_HSKEYS=2)),
+                  # three handshakes, also between cheques (a late claim of an address that already has credit), payouts {1,2}
+                  dict(mode="edges", spec="ChequeStoreGen.tla", cfg="ChequeStoreGenEdges.cfg", depth=5, max=4000, name="reg-edges-late",
+                       env=dict(VERIF_HS=3, VERIF_CUMS=2, VERIF_HSKEYS=2, VERIF_HSLATE=1), timeout=900),
+                  dict(mode="sim", spec="ChequeStoreGen.tla", cfg="ChequeStoreGenSim.cfg", depth=8, num=400, max=1500, name="reg-seq8",
+                       env=dict(VERIF_HS=4, VERIF_CUMS=3, VERIF_HSKEYS=3, VERIF_HSLATE=1), salt=11)]),
     post_gen=_c30_post,
     judge=dict(spec="ChequeStoreTrace.tla", cfg="ChequeStoreTrace.cfg"),
     corrupt=corrupt_field("cheque", "amount", lambda e: e["amount"] + 1),
-    nontrivial=lambda s: any(o.get("cls") == "valid" for o in s["ops"]) and any(o.get("cls") != "valid" for o in s["ops"]),
+    nontrivial=lambda s: any(o.get("cls") == "valid" for o in s["ops"]) and
+                         any(o.get("op") == "cheque" and o.get("cls") != "valid" for o in s["ops"]),
     rule="TLC-generated cheque sequences over 3 keys x 3 sending peers x 2 recipients x payouts {1,2,3,5} (edges: one shortest "
          "history per (model state, cheque); seq: -simulate over the class alphabet valid/replay/lower/wrong recipient/other "
          "key/foreign issuer/unregistered peer), two thirds through Service.ReceiveCheque, one third through the protocol "
-         "handler; distinct = distinct (entry point, cheque sequence); non-trivial = contains a valid and a defective cheque",
+         "handler; reg-*: the address book starts empty and the scenario begins with handshakes (3 overlays presenting chain "
+         "addresses 1,2: the same address from two overlays, another address from a registered peer), then well-formed cheques of "
+         "those addresses from every peer (one history per (highest payouts, registration, last claims, operation)); "
+         "distinct = distinct (entry point, operation sequence); non-trivial = contains a valid and a defective cheque",
     exhaustive=dict(quick=False, thorough=False),
     assumptions=["secp256k1 signatures are unforgeable; a cheque 'signed by another key' is produced by really signing with that key",
-                 "peers 1,2 register their chain address through Service.Handshake (no cheque), peer 3 never registers",
+                 "registration is Service.Handshake without a cheque (the init stream of a connection); 'the peer whose registered "
+                 "chain address is that issuer' is read as first-wins and one-to-one: an address registered to one overlay cannot be "
+                 "claimed by another, and a registered peer keeps its address; outside the reg-* families peers 1,2 have "
+                 "registered their own address before the scenario and peer 3 never registers",
                  "chain, cash-out, p2p and pubsub are stubs; they are not consulted on the receive path except BalanceOf at registration"],
 )
 
@@ -128,7 +151,8 @@ CHECKS["C33"] = dict(
                "cheque) and of a live refresh (TrafficInit as a goroutine of its own; its reads of the persisted totals are gates) with "
                "a restart after every prefix (weaker-design model: write after unlock, refresh reads before locking); each behaviour is "
                "forced on real traffic.New + cheque.NewChequeStore (a Put parks until released, parked writes are lost at the "
-               "crash), the service is rebuilt (New + Init, then handshake / credit / pay per peer) and judged by "
+               "crash), the service is rebuilt (New + Init, then per peer: the handshake in which the peer presents the cheque it "
+               "holds / pay with nothing new consumed / credit / pay) and judged by "
                "TrafficRestartTrace.tla; a violation is reported only for behaviours the real code reproduces",
     level_note="trusted: TLC, the gating store (the value handed to Put is captured at the call), goroutine identification by "
                "runtime.Stack; durability is required of acknowledged calls only (a call that has not returned may be lost); "
@@ -138,20 +162,30 @@ CHECKS["C33"] = dict(
         quick=[dict(_SCHED, name="2x2-updaters", env=dict(VERIF_PAY=0, VERIF_WIDE=0, VERIF_NUPD=2)),
                dict(_SCHED, name="payer+updaters", env=dict(VERIF_PAY=1, VERIF_WIDE=1, VERIF_NUPD=1), max=400),
                # a live refresh (TrafficInit) as a third goroutine: {refresh || update ; update ; restart}, every prefix
-               dict(_SCHED, name="refresh+updater", env=dict(VERIF_REFRESH=1, VERIF_NUPD=2, VERIF_NUPD2=0))],
+               dict(_SCHED, name="refresh+updater", env=dict(VERIF_REFRESH=1, VERIF_NUPD=2, VERIF_NUPD2=0)),
+               # every crash point inside one Pay (before / after the delivery, after the cheque is persisted), not sampled:
+               # the cut payment is the first cheque to the peer, or (prior) follows a completed one; one updater alongside
+               dict(_SCHED, name="pay-crashpoints", env=dict(VERIF_PAY=1, VERIF_NUPD=0, VERIF_NUPD2=0)),
+               dict(_SCHED, name="pay-crashpoints-prior", env=dict(VERIF_PAY=1, VERIF_NUPD=0, VERIF_NUPD2=0, VERIF_PRIOR=1)),
+               dict(_SCHED, name="payer+updater-prior", env=dict(VERIF_PAY=1, VERIF_NUPD=1, VERIF_NUPD2=0, VERIF_PRIOR=1))],
         thorough=[dict(_SCHED, name="2x2-updaters", env=dict(VERIF_PAY=0, VERIF_WIDE=0, VERIF_NUPD=2)),
                   dict(_SCHED, name="payer+2x2-updaters", env=dict(VERIF_PAY=1, VERIF_WIDE=0, VERIF_NUPD=2), max=1200),
                   dict(_SCHED, name="2x2-updaters-wide", env=dict(VERIF_PAY=0, VERIF_WIDE=1, VERIF_NUPD=2), max=700),
                   dict(_SCHED, name="payer+updaters-wide", env=dict(VERIF_PAY=1, VERIF_WIDE=1, VERIF_NUPD=1), max=800),
                   dict(_SCHED, name="refresh+updater", env=dict(VERIF_REFRESH=1, VERIF_NUPD=2, VERIF_NUPD2=0)),
-                  dict(_SCHED, name="refresh+2updaters", env=dict(VERIF_REFRESH=1, VERIF_NUPD=2, VERIF_NUPD2=1), max=600)]),
+                  dict(_SCHED, name="refresh+2updaters", env=dict(VERIF_REFRESH=1, VERIF_NUPD=2, VERIF_NUPD2=1), max=600),
+                  dict(_SCHED, name="pay-crashpoints", env=dict(VERIF_PAY=1, VERIF_NUPD=0, VERIF_NUPD2=0)),
+                  dict(_SCHED, name="pay-crashpoints-prior", env=dict(VERIF_PAY=1, VERIF_NUPD=0, VERIF_NUPD2=0, VERIF_PRIOR=1)),
+                  dict(_SCHED, name="payer+updaters-wide-prior", env=dict(VERIF_PAY=1, VERIF_WIDE=1, VERIF_NUPD=1, VERIF_PRIOR=1), max=800)]),
     judge=dict(spec="TrafficRestartTrace.tla", cfg="TrafficRestartTrace.cfg"),
     corrupt=corrupt_field("restart", "post", _c33_corrupt),
     nontrivial=lambda s: sum(1 for o in s["ops"] if o["op"] in ("start", "paystart", "refstart")) >= 2,
     rule="every prefix (= restart point) of every interleaving of the gate-level steps of 2 updaters x 2 updates on one peer "
          "(exhaustive, 251 behaviours), plus payer (issue/emit ok|fail/persist cheque) and updaters on 2 peers / both totals "
          "(exhaustive or sampled as stated per generator), plus {live refresh || update ; update} on a peer with a record "
-         "(exhaustive, 125 behaviours); distinct = distinct step sequence; non-trivial = at least two calls "
+         "(exhaustive, 125 behaviours), plus every crash point of one Pay whose cheque is the first to the peer or follows a "
+         "completed payment (exhaustive); after the restart every peer reconnects presenting the cheque it holds and is paid "
+         "before and after new traffic; distinct = distinct step sequence; non-trivial = at least two calls "
          "were in flight or completed before the restart",
     exhaustive=dict(quick=False, thorough=False),
     assumptions=["a crash loses exactly the writes that had not reached the store; the store itself is durable (C18)",
@@ -203,12 +237,17 @@ CHECKS["C32"] = dict(
                "map mutex / peer lock with hand-over) and generates one shortest behaviour per (model state, "
                "step) plus random behaviours of up to 6 calls; each is forced on real accounting.NewAccounting (every settlement "
                "call parks until released; a goroutine blocked on the peer mutex is recognised by its goroutine state) and every "
-               "recorded result, Pay request and probed balance is judged by AccountingTrace.tla",
+               "recorded result, Pay request and probed balance is judged by AccountingTrace.tla; a second model configuration "
+               "has a slow settlement layer (bounded request queue, one worker, Pay calls in progress until released, credits in "
+               "bursts): TLC checks that no request is lost and that a drain settles every due credit, and the generated "
+               "behaviours (queue of 1000, bursts up to 1003) run on the real object with a stub whose Pay parks",
     level_note="data-race freedom is not a TLA+ property: in the thorough tier the driver is built with -race and runs the calls "
                "of marked scenarios un-gated in a child process; a DATA RACE report whose accessing frame is in pkg/accounting "
                "fails the clause C32:free_of_data_races (quick tier: clause not evaluated). trusted: TLC, goroutine "
                "identification by runtime.Stack, FIFO order of the pay channel (sentinel credit), the Reserve(peer,0) probe",
-    design=[dict(spec="MCAccounting.tla", cfg="MCAccounting.cfg", cfg_thorough="MCAccounting_thorough.cfg", workers=8, timeout=900)],
+    design=[dict(spec="MCAccounting.tla", cfg="MCAccounting.cfg", cfg_thorough="MCAccounting_thorough.cfg", workers=8, timeout=900),
+            # the slow settlement layer: bounded request queue (2), Pay calls that stay in progress, bursts of credits
+            dict(spec="MCAccounting.tla", cfg="MCAccountingSlow.cfg", cfg_thorough="MCAccountingSlow_thorough.cfg", workers=8, timeout=900)],
     gen=dict(
         quick=[dict(_ACCT, mode="edges", cfg="AccountingGenEdges.cfg", depth=10, max=500, name="edges-2calls", env=dict(VERIF_MAXOPS=2)),
                dict(_ACCT, mode="sim", cfg="AccountingGenSim.cfg", depth=16, num=400, max=350, name="walks-6calls", env=dict(VERIF_MAXOPS=6)),
@@ -216,7 +255,11 @@ CHECKS["C32"] = dict(
                dict(_ACCT, mode="edges", cfg="AccountingGenEdges.cfg", depth=12, max=350, name="fresh-edges-2calls",
                     env=dict(VERIF_MAXOPS=2, VERIF_FRESH=1)),
                dict(_ACCT, mode="edges", cfg="AccountingGenEdges.cfg", depth=14, max=350, name="fresh-onepeer-edges-3calls",
-                    env=dict(VERIF_MAXOPS=3, VERIF_FRESH=1, VERIF_ONEPEER=1))],
+                    env=dict(VERIF_MAXOPS=3, VERIF_FRESH=1, VERIF_ONEPEER=1)),
+               # slow settlement layer: every Pay call stays in progress until released; bursts of 1 / 1001 / 1003 credits
+               # (pay channel: 1000) and notifications on 2 peers, one release, drain.  Not sampled
+               dict(_ACCT, mode="edges", cfg="AccountingGenEdges.cfg", depth=8, name="slow-edges-2calls",
+                    env=dict(VERIF_SLOW=1, VERIF_MAXOPS=2, VERIF_MAXREL=1, VERIF_QCAP=1000))],
         thorough=[dict(_ACCT, mode="edges", cfg="AccountingGenEdges.cfg", depth=12, max=1000, name="edges-3calls", env=dict(VERIF_MAXOPS=3),
                        timeout=900),
                   dict(_ACCT, mode="sim", cfg="AccountingGenSim.cfg", depth=16, num=2500, max=1000, name="walks-6calls",
@@ -226,7 +269,11 @@ CHECKS["C32"] = dict(
                   dict(_ACCT, mode="edges", cfg="AccountingGenEdges.cfg", depth=14, max=700, name="fresh-onepeer-edges-3calls",
                        env=dict(VERIF_MAXOPS=3, VERIF_FRESH=1, VERIF_ONEPEER=1)),
                   dict(_ACCT, mode="sim", cfg="AccountingGenSim.cfg", depth=20, num=1500, max=700, name="fresh-walks-6calls",
-                       env=dict(VERIF_MAXOPS=6, VERIF_FRESH=1), salt=9)]),
+                       env=dict(VERIF_MAXOPS=6, VERIF_FRESH=1), salt=9),
+                  dict(_ACCT, mode="edges", cfg="AccountingGenEdges.cfg", depth=9, name="slow-edges-2calls",
+                       env=dict(VERIF_SLOW=1, VERIF_MAXOPS=2, VERIF_MAXREL=2, VERIF_QCAP=1000)),
+                  dict(_ACCT, mode="edges", cfg="AccountingGenEdges.cfg", depth=10, max=500, name="slow-edges-3calls",
+                       env=dict(VERIF_SLOW=1, VERIF_MAXOPS=3, VERIF_MAXREL=1, VERIF_QCAP=1000), timeout=900)]),
     post_gen=_c32_post,
     judge=dict(spec="AccountingTrace.tla", cfg="AccountingTrace.cfg"),
     corrupt=corrupt_field("release", "pays", _c32_corrupt),
@@ -235,7 +282,10 @@ CHECKS["C32"] = dict(
          "tolerance 2) / reserve (1 vs available 1,3), threshold 2 (edges: one shortest behaviour per (model state, step) of the "
          "model bounded to N calls; walks: -simulate, 6 calls; fresh-*: accounting has not seen the peers, so concurrent first "
          "operations on the same new peer -- Credit/Credit, Credit/Notify, Reserve/Credit, two and three goroutines -- are forced "
-         "through the first-contact gate); distinct = distinct step sequence; non-trivial = two goroutines "
+         "through the first-contact gate; slow-*: the settlement layer is slow -- every Pay call stays in progress until "
+         "released -- and credits arrive in bursts of 1 / 1001 / 1003 against the pay channel of 1000: a backlog larger than "
+         "the queue, for the same and for another peer, single releases and drains; judged at quiescence); "
+         "distinct = distinct step sequence; non-trivial = two goroutines "
          "call into the same peer and one of them changes its balance",
     exhaustive=dict(quick=False, thorough=False),
     assumptions=["few goroutines wait for one lock in a generated behaviour; which of several waiters a mutex wakes first is not "
@@ -243,5 +293,7 @@ CHECKS["C32"] = dict(
                  "a real order of their sections (a goroutine that ran after one now parked inside the lock would still be blocked)",
                  "the settlement stub never fails; a payment notification larger than the balance clamps at zero (the reading under "
                  "which 'never negative' and the subtraction agree)",
-                 "race detection is sampling: absence of a report is not a proof"],
+                 "race detection is sampling: absence of a report is not a proof",
+                 "slow behaviours: within a burst no other call touches the same peer; 'a payment is requested' is read per peer at "
+                 "quiescence as: at least as many Pay calls as credits that left the balance at or above the threshold"],
 )
